@@ -287,3 +287,21 @@ def hier_gradient_exprs(subs, n_ids, v, chis, U):
                 bottom[i] += [s.dbottom_expr(th, i, d, xs[i][d], us[i][d], ch[i] if ch else None) for d in range(s.nd)]
         top += s.dtheta_flat_exprs(th, xs, us, ch)
     return [e for row in bottom for e in row] + top
+
+
+def compose(S, nest=None):
+    """chi composition of the sub-models; with nest=(i, j) the sub-models i..j-1 are first grouped into a composed
+    model of their own (a composition of compositions means the same as the flat one)"""
+    import chi
+    models = [s.build() for s in S]
+    if nest:
+        i, j = nest
+        models[i:j] = [chi.ComposedPopulationModel(models[i:j])]
+    return chi.ComposedPopulationModel(models)
+
+
+def gen_nest(rng, n_sub, p=0.2):
+    if n_sub < 2 or rng.random() >= p:
+        return None
+    i = rng.randrange(n_sub - 1)
+    return [i, rng.randint(i + 2, n_sub)]
